@@ -427,9 +427,22 @@ def r10_4(ctx, rc):
         raise AnalysisError('no handler performs the hand-off ' + handoff)
 
 
+def r10_5(ctx, rc):
+    """The directories a failed call created are removed by the end of the
+    build: the sweep that removes them takes no containment decision by a
+    string prefix (R12.5), and the value handed back is the recorded,
+    JSON-normalised one (R1.11)."""
+    from .c12 import path_prefix_tests
+    from .c01 import returned_value_is_the_records
+    path_prefix_tests(ctx, rc)
+    returned_value_is_the_records(ctx, rc)
+
+
 RULES = [
     ('R10.1', 'order of the build_file protocol', r10_1),
     ('R10.2', 'the failure handler is complete', r10_2),
     ('R10.3', 'provenance of the path and of the return value', r10_3),
     ('R10.4', 'partial acquisition of parent directories', r10_4),
+    ('R10.5', 'the directory sweep tests containment properly; the value '
+     'handed back is the recorded one', r10_5),
 ]
